@@ -34,3 +34,18 @@ Example removal_completes :
     [(PDone, 1%Z, [], []); (PDone, 0%Z, [(1%N, 7%nat)], []); (PDone, 1%Z, [], [1%N])] /\
   freed (dt (fst w)) = [1%nat; 0%nat] /\ slot_acts (cur (fst w)) 10 = [].
 Proof. vm_compute. repeat split; reflexivity. Qed.
+
+(** C04 non-vacuity: a siginfo-style handler was installed for signal 10; register(10) is
+    paused right after Slot::new (the disposition is the library's, the slot is not yet
+    published); a delivery arriving in that window calls the old handler exactly once (through
+    the fallback), three-argument convention, and runs no action. *)
+Definition sched_window : list label :=
+  [LSpawn (KMut (MRegister 10 7))] ++ repeat (LStep 0) 13 ++ [LSpawn (KDeliver 10)] ++ repeat (LStep 1) 11.
+
+Example delivery_in_the_fallback_window :
+  let r := run ok ok (sh_init [(10%Z, DForeign true)], []) sched_window in
+  map fpc (snd (fst r)) = [MDtSwap; PDone] /\
+  os_get (fst (fst r)) 10 = DLib /\ slot_acts (cur (fst (fst r))) 10 = [] /\
+  filter (fun ke => Z.eqb (e_op (snd ke)) 21) (snd r) = [(1%nat, ev 21 0 10 1 1)] /\
+  filter (fun ke => Z.eqb (e_op (snd ke)) 22) (snd r) = [].
+Proof. vm_compute. repeat split; reflexivity. Qed.
